@@ -859,6 +859,9 @@ class StmtMixin(CallMixin):
             extra = {}
             if dv is not None:
                 extra.update(self.dom_ghost(dv, "head", sh))
+                # visible to the invariants of loops nested in this one as $done_<ordinal>, $i_<ordinal>, $dom_<ordinal>
+                for gk, gv in extra.items():
+                    sh.ghost["%s_%d" % (gk, spec.ordinal)] = gv
             for lbl, g in self.inv_bool(spec, sh, extra, assume=True):
                 sh.assume(g)
             if getattr(self, "_loop_new_names", None):
